@@ -82,6 +82,34 @@ def vr (args : List (Option Nat)) : Option String :=
     some s!"{f} {toHex bs} {ValueRecord.encodedSize f} | {back}"
   | _ => none
 
+def showOwned (w : ValueRecord.Owned) : String :=
+  " ".intercalate ([w.explicitFormat, w.xPlacement, w.yPlacement, w.xAdvance, w.yAdvance, w.xPlaDev, w.yPlaDev,
+    w.xAdvDev, w.yAdvDev].map showOpt)
+
+/-- `sp <hex>`: a compiled SinglePos subtable (format 1 or 2) parsed with Model/ValueRecord.lean:
+`1 <coverage offset> <value format> | <re-read owned record> | <re-emitted bytes == input prefix>` or
+`2 <coverage offset> <value format> <value count> | <record>;<record>… | <0/1>` -/
+def sp (bs : Bytes) : String :=
+  match ValueRecord.readU16 bs with
+  | some (1, _) =>
+    match ValueRecord.readSP1 bs with
+    | some (_, cov, p, rest) =>
+      let o := ValueRecord.toOwned p
+      let again := ValueRecord.writeSP1 { coverageOffset := cov, record := o } ++ rest == bs
+      s!"1 {cov} {p.format} | {showOwned o} | {if again then 1 else 0}"
+    | none => "err:OutOfBounds"
+  | some (2, _) =>
+    match ValueRecord.readSP2 bs with
+    | some (_, cov, vf, cnt, ps, rest) =>
+      let os := ps.map ValueRecord.toOwned
+      let again := match ValueRecord.writeSP2 { coverageOffset := cov, records := os } with
+        | some b => b ++ rest == bs
+        | none => false
+      let recs := if os.isEmpty then "-" else ";".intercalate (os.map showOwned)
+      s!"2 {cov} {vf} {cnt} | {recs} | {if again then 1 else 0}"
+    | none => "err:OutOfBounds"
+  | _ => "err:format"
+
 def showEnc : NameStr.Encoding → String
   | .utf16be => "Utf16Be"
   | .macRoman => "MacRoman"
@@ -103,6 +131,10 @@ def handle (cmd : String) (args : List String) : Option String :=
   | "vr", _ =>
     match args.mapM optNat? with
     | some xs => vr xs
+    | none => none
+  | "sp", [hex] =>
+    match parseHex? hex with
+    | some bs => some (sp bs)
     | none => none
   | "ns", p :: e :: cps =>
     match parseNat? p, parseNat? e, (if cps == ["-"] then some [] else parseNats? cps) with
